@@ -20,7 +20,7 @@ CASE_TIMEOUT = 120
 TIERS = {"quick": {"n": 2000}, "thorough": {"n": 40000}}
 RULE = ("kind q: histories of add (with re-adds)/remove/pop/peek/len over 2..40 tasks and 1..12 priority levels, run on "
         "HeapPriorityQueue and SortedPriorityQueue with BarrelList._size_factor in {0,1,2,3,1520}; kind b: BarrelList "
-        "insert/pop/getitem/len/list at indices around sub-list borders; kind big: 23 000..40 000 tasks added (rank patterns "
+        "insert/pop/getitem (also b[-k])/len/list at indices around sub-list borders; kind big: 23 000..40 000 tasks added (rank patterns "
         "descending / ascending / modular, optional re-adds and removals) to both classes at the REAL _size_factor=1520 and "
         "drained, judged by Spec.big_ok; churn histories (waves of growth and bursts of scattered removals / "
         "re-prioritisations leaving hundreds of tombstones around a handful of live tasks, then a drain); steady-state "
@@ -259,8 +259,10 @@ def _gen_b(rng, tier):
             ops.append(["pop", i])
             if i < n:
                 n -= 1
-        elif r < ins_w + 0.2:
+        elif r < ins_w + 0.17:
             ops.append(["get", rng.choice([0, max(n - 1, 0), rng.randint(0, max(n - 1, 0)), n, n + 1])])
+        elif r < ins_w + 0.2:
+            ops.append(["getneg", rng.choice([1, n, max(n // 2, 1), rng.randint(1, max(n, 1)), n + 1, 0])])   # b[-k]
         elif r < ins_w + 0.23:
             ops.append(["len"])
         elif r < ins_w + 0.25 and n < 80:
@@ -439,6 +441,8 @@ def run_impl(case):
                     out.append(["val", b.pop(op[1])])
                 elif op[0] == "get":
                     out.append(["val", b[op[1]]])
+                elif op[0] == "getneg":
+                    out.append(["val", b[-op[1]]])
                 elif op[0] == "len":
                     out.append(["len", len(b)])
                 else:
@@ -487,6 +491,8 @@ def _bop(op):
         return "BPop %s" % cnat(op[1])
     if op[0] == "get":
         return "BGet %s" % cnat(op[1])
+    if op[0] == "getneg":
+        return "BGetNeg %s" % cnat(op[1])
     return "BLen" if op[0] == "len" else "BList"
 
 
